@@ -28,6 +28,7 @@ import Bebop.Proofs.Canon.Fmt
 import Bebop.Proofs.Canon.ParseX
 import Bebop.Proofs.Canon.FmtX
 import Bebop.Proofs.Canon.Embed
+import Bebop.Proofs.Canon.Check
 
 namespace Bebop.Text
 open Canon
@@ -181,5 +182,77 @@ theorem C17_structs_canonical_from_schema (ss : List CStruct) (h : ∀ s ∈ ss,
     format (canonText ss) = some (canonText ss) := by
   have := C17_schema_canonical_partial (ss.map CTop.ofStruct) (cfileOk_ofStructs ss h)
   rwa [canonTextF_ofStructs] at this
+
+/-! ## Non-vacuity -/
+
+/-- A schema that uses every construct of the extended sub-language at least once. -/
+def exSchema : CFile := [
+  { d := .import_ (strOf "common.bop") },
+  { doc := [strOf " the package"], d := .const (strOf "go_package") (.str (strOf "example/pkg")) },
+  { d := .const (strOf "Limit") (.int (strOf "int32") (strOf "-5")) },
+  { d := .const (strOf "Debug") (.bool true) },
+  { d := .const (strOf "Quiet") (.bool false) },
+  { d := .struct (some (.str (strOf "ABCD"))) false (strOf "Empty") [] },
+  { doc := [strOf " A point.", strOf " Second line."],
+    d := .struct (some (.num (strOf "0x1234"))) true (strOf "Point") [
+      { doc := [strOf " horizontal"], dep := none, ty := .name (strOf "int32") 0, name := strOf "x",
+        trail := some (strOf " pixels") },
+      { dep := some (strOf "use x"), ty := .name (strOf "float32") 2, name := strOf "grid" },
+      { dep := none, ty := .array (.name (strOf "Point") 0) 0, name := strOf "kids" },
+      { dep := none, ty := .map (strOf "string") (.map (strOf "guid") (.name (strOf "byte") 1) 0) 0,
+        name := strOf "index" }] },
+  { doc := [strOf " a message"],
+    d := .message none (strOf "Msg") [
+      { dep := none, idx := strOf "1", ty := .name (strOf "string") 0, name := strOf "title" },
+      { doc := [strOf " old"], dep := some (strOf "gone"), idx := strOf "200", ty := .name (strOf "Point") 1,
+        name := strOf "pts" }] },
+  { d := .enum false (strOf "Color") (some (strOf "int16")) [
+      { dep := none, name := strOf "Red", lit := strOf "1" },
+      { doc := [strOf " hex"], dep := none, name := strOf "Green", lit := strOf "0x10" },
+      { dep := some (strOf "no"), name := strOf "Blue", lit := strOf "-3" }] },
+  { doc := [strOf " bits"],
+    d := .enum true (strOf "Perm") none [
+      { dep := none, name := strOf "Read", lit := strOf "1" },
+      { dep := none, name := strOf "Write", lit := strOf "0x2" }] },
+  { d := .union (some (.num (strOf "7"))) (strOf "Shape") [
+      .struct [strOf " a circle"] none (strOf "1") (strOf "Circle") [
+        { doc := [strOf " radius"], dep := none, ty := .name (strOf "float64") 0, name := strOf "r",
+          trail := some (strOf "mm") }],
+      .message [] (some (strOf "old")) (strOf "2") (strOf "Poly") [
+        { dep := none, idx := strOf "1", ty := .name (strOf "Point") 1, name := strOf "pts" }]] }]
+
+
+
+/-- kernel evaluation of the executable well-formedness check (small closed data: identifiers, literals,
+    table lookups — not the tokenizer / parser / formatter models) -/
+theorem exSchema_ok : CFileOk exSchema := cfileOkB_sound (by decide)
+
+/-- A non-canonical layout: two or three blanks (space, tab, CR) in front of every token. -/
+def exLayout : Nat → List Byte := fun k =>
+  if k % 3 == 0 then [32, 9] else if k % 3 == 1 then [13, 32] else [32]
+
+theorem exLayout_ok : LayoutOk exLayout (fileLex false exSchema) := by
+  refine ⟨fun k c hc => ?_, fun k lx _ _ => ?_⟩
+  · simp only [exLayout] at hc
+    split at hc
+    · simp at hc; rcases hc with rfl | rfl <;> decide
+    · split at hc
+      · simp at hc; rcases hc with rfl | rfl <;> decide
+      · simp at hc; subst hc; decide
+  · simp only [exLayout]
+    split
+    · simp
+    · split <;> simp
+
+/-- Non-vacuity: the theorems instantiated at `exSchema` / `exLayout` (nothing is evaluated here). -/
+example : readFile (laidOutF exLayout exSchema) false = .ok (denote exSchema) :=
+  C11_schema_layout_partial exSchema exSchema_ok exLayout exLayout_ok
+example : format (laidOutF exLayout exSchema) = some (canonTextF exSchema) :=
+  C16_schema_layout_partial exSchema exSchema_ok exLayout exLayout_ok
+example : readFile (canonTextF exSchema) false = .ok (denote exSchema) :=
+  C11_schema_canonical_partial exSchema exSchema_ok
+example : format (canonTextF exSchema) = some (canonTextF exSchema) :=
+  C17_schema_canonical_partial exSchema exSchema_ok
+
 
 end Bebop.Text
